@@ -606,6 +606,30 @@ pub fn run(cfg: &Config) -> i32 {
             }
         }
     }
+    // values no MT text produces but JSON does: the rule-violating states of the C04 enumeration
+    // (sweep points) and every array of the message emptied (a message without its sequences)
+    {
+        let mut env: std::collections::BTreeMap<String, Value> = Default::default();
+        for (mt, j) in &w.jsons {
+            env.entry(mt.clone()).or_insert_with(|| serde_json::from_str(j).unwrap());
+        }
+        for (mt, body) in crate::props::c04::sweep_bodies(cfg.tier.pick(150usize, 3000usize)) {
+            if let Some(e) = env.get(&mt) {
+                let mut j = e.clone();
+                j["fields"] = body;
+                cases.push(("json/c04-point".into(), Case::Json { mt, text: j.to_string() }));
+            }
+        }
+        for (mt, e) in &env {
+            let mut paths = Vec::new();
+            array_paths(e, &mut Vec::new(), &mut paths);
+            for path in paths {
+                let mut j = e.clone();
+                set_path(&mut j, &path, Value::Array(vec![]));
+                cases.push(("json/array-emptied".into(), Case::Json { mt: mt.clone(), text: j.to_string() }));
+            }
+        }
+    }
     // systematic: every field of one message per scenario-type with a hostile character at each of
     // its first 14 positions and its last one
     {
@@ -1012,4 +1036,25 @@ fn set_path(v: &mut Value, path: &[String], nv: Value) {
         };
     }
     *c = nv;
+}
+
+fn array_paths(v: &Value, cur: &mut Vec<String>, out: &mut Vec<Vec<String>>) {
+    match v {
+        Value::Object(m) => {
+            for (k, x) in m {
+                cur.push(k.clone());
+                array_paths(x, cur, out);
+                cur.pop();
+            }
+        }
+        Value::Array(a) => {
+            out.push(cur.clone());
+            for (i, x) in a.iter().enumerate() {
+                cur.push(i.to_string());
+                array_paths(x, cur, out);
+                cur.pop();
+            }
+        }
+        _ => {}
+    }
 }
